@@ -758,6 +758,13 @@ func (p *smtPrinter) emit(t *Term) {
 	} else {
 		e = p.exprBV(t)
 	}
+	if e == "" {
+		// not expressible in this encoding: an unconstrained constant of the
+		// right sort keeps the transcript well-formed; p.err makes the query
+		// that needed it inconclusive
+		fmt.Fprintf(p.sb, "(declare-const t%d %s)\n", t.id, sortOf(t, p.intEnc))
+		return
+	}
 	fmt.Fprintf(p.sb, "(define-fun t%d () %s %s)\n", t.id, sortOf(t, p.intEnc), e)
 }
 
@@ -852,7 +859,7 @@ func (p *smtPrinter) exprBV(t *Term) string {
 		return fmt.Sprintf("(fp.roundToIntegral %s %s)", mode, r(0))
 	}
 	p.err = fmt.Errorf("exprBV: unsupported op %d", t.op)
-	return "false"
+	return ""
 }
 
 func declenBV(x string) string {
@@ -981,9 +988,25 @@ func (p *smtPrinter) exprInt(t *Term) string {
 			}
 			return fmt.Sprintf("(div %s %s)", r(0), pow2str(uint8(c.cval)))
 		}
+	case OpDecLen:
+		// number of bytes of the decimal rendering of the signed 64-bit value
+		sx := sgn(0)
+		var sb strings.Builder
+		fmt.Fprintf(&sb, "(let ((sx %s)) (let ((ax (ite (< sx 0) (- sx) sx))) (+ (ite (< sx 0) 1 0) ", sx)
+		pw := "1"
+		n := 0
+		for d := 1; d <= 19; d++ {
+			pw += "0"
+			fmt.Fprintf(&sb, "(ite (< ax %s) %d ", pw, d)
+			n++
+		}
+		sb.WriteString("20")
+		sb.WriteString(strings.Repeat(")", n))
+		sb.WriteString(")))")
+		return sb.String()
 	}
 	p.err = fmt.Errorf("exprInt: unsupported op %d", t.op)
-	return "false"
+	return ""
 }
 
 // isPow2 helper for callers
